@@ -83,7 +83,15 @@ func c01Check(c c01Case, st *stats.Run) error {
 		for i, f := range c.Before {
 			add(fmt.Sprintf("before%d:%s", i, f.Kind), foreignIdentity(p, f, &prompted))
 		}
-		add("match", p.Identity(r))
+		matchID := p.Identity(r)
+		if r.Kind == "scrypt" && (c.PlainSeed+uint64(len(c.Before)))%2 == 0 {
+			// the identity's configured maximum is exactly the file's work factor
+			sid, _ := age.NewScryptIdentity(r.Pass)
+			sid.SetMaxWorkFactor(r.WF)
+			matchID = sid
+			st.Label("scrypt-max-equals-work-factor")
+		}
+		add("match", matchID)
 		for i, f := range c.After {
 			add(fmt.Sprintf("after%d:%s", i, f.Kind), foreignIdentity(p, f, &prompted))
 		}
